@@ -119,7 +119,7 @@ func (store *Store) Put(ctx context.Context, key string, content []byte) error {
 	// Write, all at once.
 	// Note we can ignore the size return, because the contract of io.Writer states "Write must return a non-nil error if it returns n < len(p)".
 	if verifEnabled {
-		if err := verifHook("write", wr.(*os.File).Name()); err != nil {
+		if err := verifHook("write", verifWriterName(wr)); err != nil {
 			wrCommitter("")
 			return err
 		}
